@@ -45,7 +45,9 @@
      gen_file_correct_partial   : the FILE level (soyjs.Write = gen_file: header comment, namespace declarations, the chain of
                                   counters from one template to the next, no imports under the ES5 formatter) -- proved below
                                   for a registry that is one file of the subset; the reading of the emitted text as that
-                                  function table by a JavaScript engine, the ES6 formatter and calls across files are not part of it
+                                  function table by a JavaScript engine and the ES6 formatter are not part of it; C04_gen_registry_correct_partial
+                                  is the same for a registry of several files (calls across files), the table being the
+                                  union of the files' tables
      gen_correct_partial_msg    : {msg}..{/msg} without plural and without a bundle (raw text, print and call placeholders) -- proved
                                   below (same step); plural, and messages rendered from a translation bundle -- not proved
    MiniJS idealises JavaScript: numbers are integers (a result beyond 2^53 is
@@ -686,8 +688,8 @@ Proof. exact c04_imp_free_es5. Qed.
    imported); (b) the step from the emitted text to a function table in a real engine -- parsing the printed functions,
    the namespace objects, soyutils.js --: node correspondence of the harness (MiniJS-vs-V8); (c) {msg} with {plural} and
    messages rendered from a bundle (soyjs evalMsgParts): C11_three_sided_translation_partial covers bundle messages of
-   plain items relative to C04's step, not composed here; (d) a registry of several files (calls across files: the
-   function table of an engine that loaded several generated files); (e) Execute's entry mode: the statement is for
+   plain items relative to C04's step, not composed here; (d) a registry of several files: see
+   C04_gen_registry_correct_partial below; (e) Execute's entry mode: the statement is for
    templates whose autoescape mode is the same when entered by Execute and by a call (hypothesis on ct_mode). *)
 Theorem C04_gen_file_correct_partial : forall cf o fname ns nsae p F,
   c_oblig cf = [] -> (forall x, c_ij cf = Some x -> core_value x = true) -> r_templates (c_reg cf) = c04_templates p ->
@@ -710,6 +712,36 @@ Theorem C04_gen_file_correct_partial : forall cf o fname ns nsae p F,
              c04_jcall jp (S k) name (to_js (VMap data_id data)) ijv = Ok text).
 Proof. exact gen_file_correct_partial. Qed.
 Print Assumptions C04_gen_file_correct_partial.
+
+(* the same for a registry of SEVERAL files (fs: per file its name, namespace, autoescape mode and templates): every
+   file's generated text is header + namespace declarations + its own printed function table (each file from counter 0:
+   soyjs.Write makes a new scope per file), and in the UNION of the tables -- what an engine holds after loading every
+   generated file -- the function of every template returns what Renderer.Execute writes, calls across files included
+   (same hypotheses, same limits (a) (b) (c) (e)). *)
+Theorem C04_gen_registry_correct_partial : forall cf o fs F,
+  c_oblig cf = [] -> (forall x, c_ij cf = Some x -> core_value x = true) -> r_templates (c_reg cf) = c04_templates (c04_all_tmpls fs) ->
+  cn_ok o -> c04_imp_free o -> o_msgs o = None ->
+  (forall f, In f fs -> forall t, In t (cfl_tmpls f) -> ct_ns_ae t = cfl_ae f /\ (S (S (bdepth (ct_body t))) < F)%nat /\ bwf [] (ct_body t) = true) ->
+  (0 < F)%nat ->
+  let p := c04_all_tmpls fs in
+  let jp := c04_all_jprog fs in
+  (forall f, In f fs ->
+     gen_file o F (cfl_name f) (c04_file_nodes (cfl_ns f) (cfl_ae f) (cfl_tmpls f))
+     = Ok (c04_file_header (cfl_name f) ++ c04_ns_lines (cfl_ns f) ++ c04_table_chunks o (c04_jprog_chain (cfl_tmpls f) 0)))
+  /\ forall k name t data_id data first_id text fuel,
+       c04_find p name = Some t ->
+       template_mode (entry_mode (ct_ns_ae t)) (ct_ae t) = ct_mode t ->
+       forallb (fun kv => core_value (snd kv)) data = true ->
+       c04_tout (c_ij cf) go_print_text p (S k) name (fun q => assoc_s q data) = Some text ->
+       (S k * c04_D p <= fuel)%nat ->
+       (let r := render cf fuel name data_id data None None first_id in
+        rr_outcome r = Ok tt /\ concat_b (rr_writes r) = text)
+       /\ (forall jd ijv, datarel (fun q => assoc_s q data) jd -> (forall v, c_ij cf = Some v -> ijv = to_js v) ->
+             c04_jcall jp (S k) name jd ijv = Ok text)
+       /\ (forallb (fun kv => is_ident (fst kv)) data = true -> forall ijv, (forall v, c_ij cf = Some v -> ijv = to_js v) ->
+             c04_jcall jp (S k) name (to_js (VMap data_id data)) ijv = Ok text).
+Proof. exact gen_registry_correct_partial. Qed.
+Print Assumptions C04_gen_registry_correct_partial.
 
 (* non-vacuity: the two templates of C04_call_nonvacuous as the file ex.soy with {namespace ns}: every hypothesis of the
    theorem holds of it, and gen_file's chunks render to the file soyjs.Write produces *)
